@@ -332,6 +332,10 @@ class InlineTranslator:
         # only one equality
         if len(agga.equal_variable_bound) != 1 or agga.bounds:
             return None
+        # a global variable inside the aggregate that is not passed by the head gives several values per head tuple
+        head_vars = set(collect_ast(hatom.symbol, "Variable"))
+        if not global_vars_inside_body(stm.body).intersection(collect_ast(agg, "Variable")) <= head_vars:
+            return None
         # result is actually used in head
         for index, v in enumerate(hatom.symbol.arguments):
             if v == Variable(LOC, agga.equal_variable_bound[0]):
